@@ -65,6 +65,26 @@ BUILT = {
          "Random histories of 5-40 mutating calls (powers below, at and beyond the degree) checked after every operation, plus evaluation/derivative/antiderivative/integral consistency on polynomials of degree 0..30, real and complex.",
          "Rounding bounds 8 n eps sum|c_k||x|^k; purge_leading's documented contract is asserted in addition to the property text.",
          "DESIGN.md §4 C13"),
+ "C04": ("exploration",
+         "ground-truth monitor: every yielded state compared with closed-form solutions along tolerance ladders (step ladders for Euler); complex run vs equivalent real system; static vs dynamic dimension",
+         "Closed-form problem stacks (linear, time-varying, separable non-linear, mixed by orthogonal matrices; complex linear systems) are solved on every rung of a 1e-3..1e-10 ladder and every item must lie within the classical propagated bound of the truth, so an error that stops shrinking is caught at the tight end; complex and real-equivalent runs and static/dynamic runs are cross-compared. Held on the executions observed.",
+         "Bound K_s tol (e^{L t}-1)/L (x item index for BDF), K_s from C02; item-by-item equality of complex/real and static/dynamic paths is NOT asserted (rounding differences are amplified by the step controller), only lengths, worst-error ratio within 2x and states at coinciding times.",
+         "DESIGN.md §4 C04"),
+ "C15": ("exploration",
+         "reference-model monitor: interpolants against the exact interpolating polynomial computed in double-double arithmetic, condition-number-scaled bounds, node values/derivatives, permutation invariance",
+         "Tens to hundreds of thousands of node sets (1-8 nodes, real and complex, several node styles and data scales incl. a small-scale stratum) per run; degree bound, coefficients, node values and derivatives, reordering and Err cases are checked. Held on the executions observed.",
+         "Bounds K eps kappa |c| + tol with K = 128 (Lagrange) / 1024 (Hermite), kappa from SVD bracketed by the exact Frobenius condition number.",
+         "DESIGN.md §4 C15"),
+ "C16": ("exploration",
+         "reference-model monitor: CubicSpline values and first derivatives against an independent dense solve of the spline equations (own partial-pivot LU), at knots, one-ulp neighbours and interior points; direct C0/C1/C2, end-condition and reproduction checks; Err-case enumeration",
+         "Thousands (quick) to 100 000 (thorough) splines with 2-40 knots and spacing ratios up to 50, free and clamped, real and complex.",
+         "Units include the componentwise forward error of the reference solve; constants 24/32/16/16 with observed maxima <= 2.4.",
+         "DESIGN.md §4 C16"),
+ "C18": ("exploration",
+         "exhaustive comparison of the five constructor families with exact integer/rational coefficients (i128), n = 0..20 x 5 tolerances x real/complex, plus identities through evaluate and three-term recurrences",
+         "All 1050 (family, n, tolerance, field) cells are checked on every run (exhaustive); the closed-form reference is itself cross-checked against integer recurrences.",
+         "Per-coefficient relative bound 16 eps n (Chebyshev, built by FFT products: relative to the largest coefficient).",
+         "DESIGN.md §4 C18"),
 }
 
 PENDING_REASON = "check not built yet in this commit (runtime monitor designed in DESIGN.md §4; will be claimed when its harness module lands)"
